@@ -87,6 +87,10 @@ usage:
 	seen := map[string]struct{}{}
 	for i := range args {
 		s := strings.SplitN(args[i], "=", 2)
+		if len(s) > 1 {
+			// "columns= '...'": a blank after the = is not part of the value
+			s[1] = strings.TrimSpace(s[1])
+		}
 		if _, ok := seen[s[0]]; ok {
 			return nil, fmt.Errorf("duplicated: %s", s[0])
 		}
@@ -101,7 +105,7 @@ usage:
 				return nil, fmt.Errorf("columns: %w", err)
 			}
 		case "entries_per_node":
-			i, err := strconv.ParseInt(s[1], 0, 32)
+			i, err := strconv.ParseInt(s[1], 10, 32)
 			if err != nil {
 				return nil, fmt.Errorf("arg: %w", err)
 			}
@@ -110,7 +114,7 @@ usage:
 			}
 			table.S3Options.EntriesPerNode = int(i)
 		case "node_cache_entries":
-			i, err := strconv.ParseInt(s[1], 0, 32)
+			i, err := strconv.ParseInt(s[1], 10, 32)
 			if err != nil {
 				return nil, fmt.Errorf("arg: %w", err)
 			}
